@@ -29,12 +29,13 @@ Theorem C09_mean_checked : forall (scaled : bool) amin amax a sg (rg : nat -> R)
 Proof. exact mean_out_of_range_raises. Qed.
 Print Assumptions C09_mean_checked.
 
-(* line-of-sight laws: Gaussian mean + sigma*z_k, GEV mean + sigma*ppf_xi(u_k), from the lens' OWN population entry; none -> 0 *)
+(* line-of-sight laws: Gaussian mean + sigma*z_k, GEV mean + sigma*ppf_xi(u_k), from the lens' OWN population entry (one-element
+   arrays: the source draws with size=1); none -> 0 *)
 Theorem C09_los_laws : forall (gev_ppf : R -> R -> R) other m sg xi kl rg cu,
   yields (Gl gev_ppf) 60 (CFun src_LOSDistribution_draw_los) (Some (los_glob "GAUSSIAN")) [VList [other; dict [("mean", num m); ("sigma", num sg)]]] [] rg cu
-    (num (m + sg * rg cu)) (S cu) []
+    (VArr [num (m + sg * rg cu)]) (S cu) []
   /\ yields (Gl gev_ppf) 60 (CFun src_LOSDistribution_draw_los) (Some (los_glob "GEV")) [VList [other; dict [("mean", num m); ("sigma", num sg); ("xi", num xi)]]] [] rg cu
-    (num (m + sg * gev_ppf xi (rg cu))) (S cu) []
+    (VArr [num (m + sg * gev_ppf xi (rg cu))]) (S cu) []
   /\ yields (Gl gev_ppf) 60 (CFun src_LOSDistribution_draw_los) (Some los_none) [kl] [] rg cu (VInt 0) cu [].
 Proof. intros. split; [apply los_gaussian | split; [apply los_gev | apply los_none_is_zero]]. Qed.
 Print Assumptions C09_los_laws.
